@@ -58,6 +58,7 @@ COMPILER_REPLAYS = {
     "u_derive": ["replay/c18/prim_fields.sh"],
     "u_patlit": ["replay/c03/run.sh"],
     "u_annot": ["replay/c03/annotations.sh"],
+    "u_optypes": ["replay/c03/struct_operands.sh"],
     "u_binop": ["replay/c09/short_circuit.sh"],
     "u_dcefx": ["replay/c10/dead_division.sh"],
     "u_strlit": ["replay/c11/run.sh"],
